@@ -613,6 +613,8 @@ def _emit(out, pad, line, style, rng):
         k = line.find(" && ") if " && " in line else line.find(" || ")
         out.append(pad + line[: k + 3] + " \\")
         out.append(pad + "        " + line[k + 4 :])
+    elif style.get("inline") and rng.random() < 0.6:
+        out.append(pad + line + rng.choice(["  # trailing", " #", "\t# say \"hi\"", "    # it's"]))
     else:
         out.append(pad + line)
     if style.get("comments") and rng.random() < 0.3:
@@ -760,6 +762,7 @@ STYLES = {
     "canonical": {},
     "separate-prompt+shuffle": {"separate_prompt": True, "shuffle": True},
     "comments": {"comments": True},
+    "inline-comments": {"inline": True},
     "continuation": {"continuation": True},
     "help": {"help": True},
     "tabs": {"tabs": True},
